@@ -319,6 +319,19 @@ def run(rep, repo, tier):
     loc = b.pe.loc_of(b.term)
     for lo, hi in ((None, F(0)), (F(0), None)):
       check_region(rep, cfg, unit, f, ref, step, codes, lo, hi, loc)
+    # the point between the half lines: an input element that is exactly 0
+    # (sign(0) = 0) still maps to a code within half a step of a(0)
+    if cls in ("quantized_bits", "quantized_linear", "quantized_relu"):
+      at0 = Eval(Env(x=VS.const(F(0)), xsign=0)).nf(f)
+      v0 = at0.const_value()
+      r0 = Eval(Env(x=VS.const(F(0)), xsign=0)).nf(ref).const_value()
+      ok0 = v0 is not None and r0 is not None and codes.contains_value(
+          v0) and abs(v0 - r0) <= step / 2
+      rep.check(ok0, "R2", unit, "zero-input-off-the-code-set",
+                "an input of exactly 0 gives %r (reference %r); expected a "
+                "code of %r within half a step (%s)" % (at0, r0, codes,
+                                                        step / 2),
+                loc=loc, instance=cfg)
     # R5 monotone on the whole line, else per half line + ordering
     ev = Eval(Env())
     p = pwa.polarity(f, ev)
